@@ -296,7 +296,11 @@ func (s *Server) receiveLoop(ctx context.Context) {
 
 		// Parse Ethernet header
 		dstMAC := net.HardwareAddr(buf[0:6])
-		srcMAC := net.HardwareAddr(buf[6:12])
+		// The source MAC outlives this iteration (a PADR stores it as the
+		// session's owner), so it must not alias the receive buffer, which the
+		// next frame overwrites
+		srcMAC := make(net.HardwareAddr, 6)
+		copy(srcMAC, buf[6:12])
 		etherType := binary.BigEndian.Uint16(buf[12:14])
 
 		// Check if it's for us (broadcast or our MAC)
